@@ -18,7 +18,6 @@ import itertools
 import json
 
 import numpy as np
-import pandas as pd
 
 from runtime import oracles_C04 as oc
 from runtime.common import use_repo
@@ -44,7 +43,8 @@ def configs(det, tier):
                     out.append({"det": det, "params": {"min_segment_length": m, "penalty_scale": ps}, "scorer": "GCov"})
     elif det == "MovingWindow":
         for b in (1, 2, 3) + ((4, 6) if th else ()):
-            for ts, lv in ((0.0, 0.01), (0.05, 0.01), (None, 0.01), (None, 0.5)) + (((None, 0.99), (1.0, 0.2)) if th else ()):
+            # level is documented only as a float (Appendix B: any value in (0, 1)); large levels make the default threshold small
+            for ts, lv in ((0.0, 0.01), (0.05, 0.01), (None, 0.01), (None, 0.5), (1.0, 0.999)) + (((None, 0.99), (1.0, 0.2)) if th else ()):
                 for sc in (None, "L2") + (("GVar",) if b >= 2 else ()):
                     out.append({"det": det, "params": {"bandwidth": b, "threshold_scale": ts, "level": lv}, "scorer": sc})
             if b == 6:
